@@ -115,10 +115,18 @@ def toInt32Float (b : Nat) : Nat :=
   let u := if sign b == 1 then (two32 - t) % two32 else t   -- two's complement of the signed value
   if u < 2147483648 then encodeNat u else two63 + encodeNat (two32 - u)
 
-/-- math.go:224-229 `Trunc` -/
-def trunc (x : Nat) : Nat :=
+/-- REPAIRED DEFECT (fixes/C13-math-trunc.patch) — the scheme before the repair:
+    `if x == posInf || x == negInf || x != x || 1/x == negInf { return x }; return Copysign(float64(int(x)), x)` -/
+def truncOld (x : Nat) : Nat :=
   if eqBits x posInf || eqBits x negInf || isNaN x || recipIsNegInf x then x
   else copysign (toInt32Float x) x
+
+/-- math.go `Trunc` = `Math.trunc(x)`, by its ECMAScript definition: NaN, ±0, ±∞ unchanged; 0 < x < 1 gives +0,
+    -1 < x < 0 gives -0; otherwise the integral part of the exact value, sign of x -/
+def trunc (x : Nat) : Nat :=
+  if !isFinite x || isZero x then x
+  else if expo x ≥ 1075 then x                       -- already an integer
+  else sign x * two63 + encodeNat (truncMag x)
 
 /-- upstream floor.go `Trunc` (via `Modf`: clear the fractional mantissa bits) — the SPECIFICATION -/
 def truncGo (x : Nat) : Nat :=
@@ -167,17 +175,26 @@ structure ModfOut where
   fracZero : Bool
   deriving DecidableEq, Repr
 
-/-- math.go:164-173 `Modf`: `frac := $mod(f, 1); return f - frac, frac`.
-    JS `%` keeps the dividend's sign (also on a zero result); `f - frac` is exact; `x - x = +0`. -/
-def modf (f : Nat) : ModfOut :=
+/-- REPAIRED DEFECT (fixes/C13-math-modf.patch) — the scheme before the repair:
+    `if 1/f == negInf { return f, f }; frac := $mod(f, 1); return f - frac, frac` -/
+def modfOld (f : Nat) : ModfOut :=
   if eqBits f posInf || eqBits f negInf then ⟨f, true, 0, false⟩
   else if recipIsNegInf f then ⟨f, false, sign f, isZero f⟩
   else if isNaN f then ⟨nanBits, true, 0, false⟩
   else
     let fz := !hasFrac f
-    -- integer part f - frac: |f| < 1 gives f - f = +0 (and +0 - +0 = +0); otherwise the exact integer part, sign of f
     let ip := if expo f < 1023 then 0 else truncGo f
     ⟨ip, false, sign f, fz⟩
+
+/-- math.go `Modf`: `frac := $mod(f, 1); return Copysign(f-frac, f), frac`.
+    JS `%` keeps the dividend's sign (also on a zero result); `f - frac` is exact: +0 for |f| < 1 (x - x = +0, and
+    (-0) - (-0) = +0), otherwise the integral part with the sign of f. -/
+def modf (f : Nat) : ModfOut :=
+  if eqBits f posInf || eqBits f negInf then ⟨f, true, 0, false⟩
+  else if isNaN f then ⟨nanBits, true, 0, false⟩
+  else
+    let d := if expo f < 1023 then 0 else truncGo f
+    ⟨copysign d f, false, sign f, !hasFrac f⟩
 
 /-- upstream modf.go `Modf` — the SPECIFICATION -/
 def modfGo (f : Nat) : ModfOut :=
